@@ -1435,6 +1435,27 @@ func (e *Engine) evalSum(y *EQuant, env *evalEnv, bv string, body Val) Val {
 		} else {
 			e.vc.assume(quant(eq(call(lo.S), "0"), call(lo.S)))
 		}
+		// congruence lemma (valid for any two sums over the same range start, by induction on n): if the summands
+		// agree on [lo, n) the sums agree. Emitted between the instances of one contract sum expression evaluated
+		// in different program states (e.g. a slice before and after an unrelated append).
+		if len(prms) == 0 {
+			if e.sumByExpr == nil {
+				e.sumByExpr = map[*EQuant][]sumInst{}
+			}
+			tmpl := replaceToken(body.S, bv, "%v")
+			for _, o := range e.sumByExpr[y] {
+				if o.lo != lo.S {
+					continue
+				}
+				e.qn++
+				jv := fmt.Sprintf("cj_q%d", e.qn)
+				b1 := strings.ReplaceAll(o.tmpl, "%v", jv)
+				b2 := strings.ReplaceAll(tmpl, "%v", jv)
+				e.vc.assume(fmt.Sprintf("(forall ((cn Int)) (! (=> (forall ((%s Int)) (=> (and (<= %s %s) (< %s cn)) (= %s %s))) (= (%s cn) (%s cn))) :pattern ((%s cn) (%s cn))))",
+					jv, lo.S, jv, jv, b1, b2, o.fn, fn, o.fn, fn))
+			}
+			e.sumByExpr[y] = append(e.sumByExpr[y], sumInst{fn: fn, tmpl: tmpl, lo: lo.S})
+		}
 	}
 	at := func(t string) string { return replaceToken(body.S, bv, t) }
 	h := hi.S
@@ -1471,6 +1492,8 @@ func (e *Engine) evalSum(y *EQuant, env *evalEnv, bv string, body Val) Val {
 	e.vc.assume(quant(implies(app(">", h, lo.S), eq(call(h), app("+", call(prev), at(prev)))), call(h)))
 	return Val{S: call(h), T: specInt}
 }
+
+type sumInst struct{ fn, tmpl, lo string }
 
 func isBoundVarName(s string) bool {
 	i := strings.LastIndex(s, "_q")
